@@ -27,11 +27,14 @@ const (
 
 // Alphabets (ordered simplest first so that the first counterexample is the shortest).
 var (
-	opAddA     = MOp{K: "add", PID: 0x100, ST: stH264}
-	opAddB     = MOp{K: "add", PID: 0x101, ST: stAAC, Desc: "lang"}
-	opAddAuto  = MOp{K: "add", PID: 0, ST: stMeta, Desc: "sid"}
-	opAddC     = MOp{K: "add", PID: 0x102, ST: stAAC, Desc: "emptylast"}
-	opAddD     = MOp{K: "add", PID: 0x103, ST: stMeta, Desc: "emptyonly"}
+	opAddA    = MOp{K: "add", PID: 0x100, ST: stH264}
+	opAddB    = MOp{K: "add", PID: 0x101, ST: stAAC, Desc: "lang"}
+	opAddAuto = MOp{K: "add", PID: 0, ST: stMeta, Desc: "sid"}
+	opAddC    = MOp{K: "add", PID: 0x102, ST: stAAC, Desc: "emptylast"}
+	opAddD    = MOp{K: "add", PID: 0x103, ST: stMeta, Desc: "emptyonly"}
+	// explicit PIDs at both ends of the range a stream may use (0x1fff is the null PID, 0x00-0x1f are reserved)
+	opAddHi    = MOp{K: "add", PID: 0x1ffe, ST: stAAC}
+	opAddLo    = MOp{K: "add", PID: 0x20, ST: stAAC}
 	opRmA      = MOp{K: "rm", PID: 0x100}
 	opRmB      = MOp{K: "rm", PID: 0x101}
 	opRmX      = MOp{K: "rm", PID: 0x1ff}
@@ -89,7 +92,7 @@ var (
 )
 
 var muxFullAlpha = []MOp{
-	opAddA, opAddB, opAddC, opAddD, opAddAuto, opRmA, opRmB, opRmX, opPcrA, opPcrB, opPcrX, opTables,
+	opAddA, opAddB, opAddC, opAddD, opAddAuto, opAddHi, opAddLo, opRmA, opRmB, opRmX, opPcrA, opPcrB, opPcrX, opTables,
 	opDataA1, opDataAfit, opDataAs1, opDataAs2, opDataA3, opDataA17, opDataARAI, opDataAprv, opDataAopc, opDataA0pcr, opDataA0stp, opDataAnor, opDataAhdr, opDataAfull, opDataApack,
 	opDataB1, opDataBRAI, opDataAuto, opDataX,
 	opPktNull, opPktOwn, opPktAF, opPktShort, opPktBig, opPktStale, opPktWrap, opPktPriv0, opPktAF252, opDataApr0, opAddMany, opRmMany,
@@ -160,6 +163,8 @@ func MuxScenarios(thorough bool) []MuxScenario {
 		// too many, others overshoot by 3 and 4; a refused emission must not consume a version or a counter value
 		MuxScenario{Name: "pmt-size-boundary-p2", Period: 2, Setup: []MOp{opAddA, opPcrA, {K: "addmany", N: 31}, opTables},
 			Alpha: []MOp{opAddD, {K: "add", PID: 0x104, ST: stMeta, Desc: "sid"}, opAddC, opAddB, {K: "rm", PID: 0x103}, {K: "rm", PID: 0x104}, {K: "rm", PID: 0x102}, opRmB, opTables, opDataA1}, Depth: 4, Dedup: true},
+		// automatic PID assignment after explicit PIDs at the ends of the range, around streams that are live
+		MuxScenario{Name: "auto-pid-extremes-p40", Period: 40, Setup: setupA, Alpha: []MOp{opAddHi, opAddLo, opAddAuto, opDataA1, opDataAuto, {K: "rm", PID: 0x1ffe}, opTables}, Depth: 5, Dedup: true},
 		MuxScenario{Name: "packet-size-edges-p2", Period: 2, Setup: setupA, Alpha: muxPktEdgeAlpha, Depth: 3, Dedup: true},
 		MuxScenario{Name: "fix-add-remove", Period: 40, Setup: setupA, Alpha: []MOp{opAddB, opRmB, opTables}, Depth: -1, Dedup: true},
 		MuxScenario{Name: "fix-readd-p1", Period: 1, Setup: setupA, Alpha: []MOp{opRmA, opAddA, opDataA1}, Depth: fixDepth, Dedup: true},
